@@ -736,7 +736,7 @@ func (w *World) literalDelimiters(P string, f *Facts, r *Roles) {
 			continue
 		}
 		stores := 0
-		for _, g := range w.handlerClosure(h.Fn) {
+		for _, g := range w.handlerClosureH(h) {
 			allInstrs(g, func(in ssa.Instruction) {
 				st, ok := in.(*ssa.Store)
 				if !ok {
